@@ -66,6 +66,12 @@ pub proof fn wf_func_at(ss: Seq<LuaScope>, i: int)
                 && #[trigger] kids(ss, i)[a] is Decl && #[trigger] kids(ss, i)[b] is Scope ==> a < b
 { reveal(tree_wf); assert(is_func(ss, i)); }
 
+pub proof fn wf_local_at(ss: Seq<LuaScope>, i: int, a: int, b: int)
+    requires tree_wf(ss), 0 <= i < ss.len(), kd(ss, i) == LuaScopeKind::LocalOrAssignStat, 0 <= a < b < kids(ss, i).len(),
+        kids(ss, i)[a] is Decl, kids(ss, i)[b] is Decl
+    ensures cpos(ss, kids(ss, i)[a]) < cpos(ss, kids(ss, i)[b])
+{ reveal(tree_wf); }
+
 pub proof fn wf_declpos_at(ss: Seq<LuaScope>, i: int, b: int, k: int)
     requires tree_wf(ss), 0 <= i < ss.len(), 0 <= b < kids(ss, i).len(), kids(ss, i)[b] is Scope,
         0 <= k < kids(ss, sidx(kids(ss, i)[b])).len(), kids(ss, sidx(kids(ss, i)[b]))[k] is Decl
@@ -195,6 +201,29 @@ pub proof fn lemma_decls_from_char(ks: Seq<ScopeOrDeclId>, k: int, x: ScopeOrDec
         }
     }
 }
+pub proof fn lemma_decls_rev_char(ks: Seq<ScopeOrDeclId>, k: int, x: ScopeOrDeclId)
+    requires 0 <= k <= ks.len()
+    ensures decls_rev(ks, k).contains(x) <==> (x is Decl && exists|j: int| 0 <= j < k && ks[j] == x)
+    decreases k
+{
+    if k > 0 {
+        lemma_decls_rev_char(ks, k - 1, x);
+        if ks[k - 1] is Decl {
+            lemma_concat_contains(seq![ks[k - 1]], decls_rev(ks, k - 1), x);
+            assert(seq![ks[k - 1]].contains(x) <==> x == ks[k - 1]) by {
+                if x == ks[k - 1] { assert(seq![ks[k - 1]][0] == x); }
+            }
+        }
+        if x is Decl && exists|j: int| 0 <= j < k && ks[j] == x {
+            let j = choose|j: int| 0 <= j < k && ks[j] == x;
+            if j < k - 1 { assert(0 <= j < k - 1 && ks[j] == x); }
+        }
+        if x is Decl && exists|j: int| 0 <= j < k - 1 && ks[j] == x {
+            let j = choose|j: int| 0 <= j < k - 1 && ks[j] == x;
+            assert(0 <= j < k && ks[j] == x);
+        }
+    }
+}
 /// x is what the reverse walk emits for child c: the declaration itself, or one of the declarations of a statement scope
 pub open spec fn child_has(ss: Seq<LuaScope>, c: ScopeOrDeclId, x: ScopeOrDeclId) -> bool {
     match c {
@@ -208,7 +237,16 @@ pub proof fn lemma_child_char(ss: Seq<LuaScope>, c: ScopeOrDeclId, x: ScopeOrDec
     match c {
         ScopeOrDeclId::Decl(_) => { if x == c { assert(seq![c][0] == x); } }
         ScopeOrDeclId::Scope(sid) => {
-            if (sid.id as int) < ss.len() && stmt_kind(kd(ss, sid.id as int)) { lemma_decls_from_char(kids(ss, sid.id as int), 0, x); }
+            if (sid.id as int) < ss.len() && stmt_kind(kd(ss, sid.id as int)) {
+                let ks = kids(ss, sid.id as int);
+                lemma_decls_from_char(ks, 0, x);
+                lemma_decls_rev_char(ks, ks.len() as int, x);
+                if listed_from(ks, 0, x) { let j = choose|j: int| 0 <= j < ks.len() && ks[j] == x; assert(0 <= j < ks.len() && ks[j] == x); }
+                if x is Decl && exists|j: int| 0 <= j < ks.len() && ks[j] == x {
+                    let j = choose|j: int| 0 <= j < ks.len() && ks[j] == x;
+                    assert(0 <= j < ks.len() && ks[j] == x);
+                }
+            }
         }
     }
 }
@@ -376,9 +414,46 @@ pub open spec fn complete_from(ss: Seq<LuaScope>, t: Seq<ScopeOrDeclId>, pos: in
     forall|s: int, k: int, d: LuaDeclId| 0 <= s < ss.len() && #[trigger] is_decl_child(ss, s, k, d) && region(ss, s, d, pos, false) && lvl(ss, s, pos) <= top
         ==> t.contains(ScopeOrDeclId::Decl(d))
 }
+/// what the code's reading of `visible` demands of the position for the declarations of a ForRange scope
+pub open spec fn for_region_ok(ss: Seq<LuaScope>, i: int, pos: int) -> bool {
+    if hdr_trav() { in_body(ss, i, pos) } else { in_some_child(ss, i, pos) }
+}
+/// the last child scope is a child scope
+pub proof fn lemma_in_body_child(ss: Seq<LuaScope>, i: int, pos: int)
+    requires tree_wf(ss), 0 <= i < ss.len(), in_body(ss, i, pos)
+    ensures in_some_child(ss, i, pos), inside(ss, i, pos)
+{
+    let kb = kids(ss, i).len() - 1;
+    assert(kids(ss, i).last() == kids(ss, i)[kb]);
+    assert(kids(ss, i)[kb] matches ScopeOrDeclId::Scope(sid) && rng(ss, sid.id as int, pos));
+    wf_child(ss, i, kb);
+    lemma_inside_parent(ss, sidx(kids(ss, i)[kb]), pos);
+}
+pub proof fn lemma_for_region_inside(ss: Seq<LuaScope>, i: int, pos: int)
+    requires tree_wf(ss), 0 <= i < ss.len(), for_region_ok(ss, i, pos) || in_some_child(ss, i, pos) || in_body(ss, i, pos)
+    ensures inside(ss, i, pos), in_some_child(ss, i, pos)
+{
+    if in_body(ss, i, pos) { lemma_in_body_child(ss, i, pos); }
+    let kc = choose|kc: int| 0 <= kc < kids(ss, i).len() && (#[trigger] kids(ss, i)[kc] matches ScopeOrDeclId::Scope(sid) && rng(ss, sid.id as int, pos));
+    wf_child(ss, i, kc);
+    lemma_inside_parent(ss, sidx(kids(ss, i)[kc]), pos);
+}
+/// the search position p and the real position pos lie in the same child u of scope i: both or neither are in the body of i
+pub proof fn lemma_in_body_shift(ss: Seq<LuaScope>, i: int, b: int, p: int, pos: int)
+    requires tree_wf(ss), 0 <= i < ss.len(), 0 <= b < kids(ss, i).len(), kids(ss, i)[b] is Scope,
+        rng(ss, sidx(kids(ss, i)[b]), p), rng(ss, sidx(kids(ss, i)[b]), pos)
+    ensures in_body(ss, i, p) == in_body(ss, i, pos)
+{
+    let kb = kids(ss, i).len() - 1;
+    assert(kids(ss, i).last() == kids(ss, i)[kb]);
+    if kids(ss, i)[kb] is Scope {
+        wf_child(ss, i, kb);
+        if kb != b { wf_disjoint_at(ss, i, kb, b); }
+    }
+}
 pub proof fn lemma_level_sound(ss: Seq<LuaScope>, i: int, pos: int, x: ScopeOrDeclId)
     requires tree_wf(ss), 0 <= i < ss.len(), inside(ss, i, pos), level_vis(ss, i, x, pos), kd(ss, i) != LuaScopeKind::LocalOrAssignStat,
-        kd(ss, i) == LuaScopeKind::ForRange ==> in_some_child(ss, i, pos)
+        kd(ss, i) == LuaScopeKind::ForRange ==> for_region_ok(ss, i, pos)
     ensures x is Decl, visible(ss, x->Decl_0, pos, false)
 {
     let ks = kids(ss, i);
@@ -454,9 +529,7 @@ pub proof fn lemma_lvl_chain(ss: Seq<LuaScope>, s: int, k: int, d: LuaDeclId, po
     if stmt_kind(kd(ss, s)) {
         wf_stmt_at(ss, s);
     } else if kd(ss, s) == LuaScopeKind::ForRange {
-        let kc = choose|kc: int| 0 <= kc < kids(ss, s).len() && (#[trigger] kids(ss, s)[kc] matches ScopeOrDeclId::Scope(sid) && rng(ss, sid.id as int, pos));
-        wf_child(ss, s, kc);
-        lemma_inside_parent(ss, sidx(kids(ss, s)[kc]), pos);
+        lemma_for_region_inside(ss, s, pos);
     }
     assert(0 <= l < ss.len() && inside(ss, l, pos));
     if l < i {
@@ -486,7 +559,7 @@ pub proof fn lemma_sound_empty(ss: Seq<LuaScope>, pos: int)
 /// soundness of one search in a scope around pos
 pub proof fn lemma_search_sound(ss: Seq<LuaScope>, i: int, p: int, pos: int)
     requires tree_wf(ss), ctx0(ss, i, p, pos), inside(ss, i, pos), kd(ss, i) != LuaScopeKind::LocalOrAssignStat,
-        kd(ss, i) == LuaScopeKind::ForRange ==> in_some_child(ss, i, pos)
+        kd(ss, i) == LuaScopeKind::ForRange ==> for_region_ok(ss, i, pos)
     ensures sound_seq(ss, m_search(ss, i, p), pos)
 {
     assert forall|x: ScopeOrDeclId| #[trigger] m_search(ss, i, p).contains(x) implies (x is Decl && visible(ss, x->Decl_0, pos, false)) by {
@@ -531,10 +604,13 @@ pub proof fn lemma_up(ss: Seq<LuaScope>, u: int, p: int, pos: int)
         }
     } else {
         lemma_ctx_from_child(ss, u, b, p, pos);
-        let bs = m_search(ss, i, p);
+        let bs = lsearch(ss, i, p);
         let cs = m_up(ss, i, p);
-        if kd(ss, i) == LuaScopeKind::ForRange { assert(kids(ss, i)[b] matches ScopeOrDeclId::Scope(sid) && rng(ss, sid.id as int, pos)); }
-        lemma_search_sound(ss, i, p, pos);
+        if kd(ss, i) == LuaScopeKind::ForRange {
+            assert(kids(ss, i)[b] matches ScopeOrDeclId::Scope(sid) && rng(ss, sid.id as int, pos));
+            lemma_in_body_shift(ss, i, b, p, pos);
+        }
+        if hdr_trav() && kd(ss, i) == LuaScopeKind::ForRange && !in_body(ss, i, p) { lemma_sound_empty(ss, pos); } else { lemma_search_sound(ss, i, p, pos); }
         // the enclosing scopes
         if i > 0 {
             let ki = wf_parent(ss, i);
@@ -619,6 +695,7 @@ pub proof fn lemma_entry(ss: Seq<LuaScope>, l: int, pos: int)
             if lvl(ss, s, pos) == l {
                 if stmt_kind(kd(ss, s)) { wf_stmt_at(ss, s); }
                 else {
+                    lemma_for_region_inside(ss, s, pos);
                     let kc = choose|kc: int| 0 <= kc < kids(ss, s).len() && (#[trigger] kids(ss, s)[kc] matches ScopeOrDeclId::Scope(sid) && rng(ss, sid.id as int, pos));
                     assert(false);
                 }
@@ -699,41 +776,33 @@ pub proof fn lemma_trace_is_visible(ss: Seq<LuaScope>, l: int, pos: int)
         // the level of a visible declaration is a scope around pos, hence the leaf or above it
         if stmt_kind(kd(ss, s)) { wf_stmt_at(ss, s); }
         else if kd(ss, s) == LuaScopeKind::ForRange {
-            let kc = choose|kc: int| 0 <= kc < kids(ss, s).len() && (#[trigger] kids(ss, s)[kc] matches ScopeOrDeclId::Scope(sid) && rng(ss, sid.id as int, pos));
-            wf_child(ss, s, kc);
-            lemma_inside_parent(ss, sidx(kids(ss, s)[kc]), pos);
+            lemma_for_region_inside(ss, s, pos);
         }
         let lv = lvl(ss, s, pos);
         assert(0 <= lv < ss.len() && inside(ss, lv, pos));
         lemma_leaf_innermost(ss, l, lv, pos);
     }
 }
-/// Lua's reading implies the code's; outside loop / function headers the two coincide
+/// Lua's reading implies the code's; outside loop / function headers the two coincide; with the repaired traversal and builder encoding
+/// (hdr_trav() && enc_for()) there is no such header position left: the two readings are the same everywhere
 pub proof fn lemma_lua_vs_code(ss: Seq<LuaScope>, d: LuaDeclId, pos: int)
     requires tree_wf(ss)
     ensures visible(ss, d, pos, true) ==> visible(ss, d, pos, false),
         !in_header(ss, pos) ==> (visible(ss, d, pos, false) ==> visible(ss, d, pos, true)),
+        (hdr_trav() && enc_for()) ==> !in_header(ss, pos),
 {
     if visible(ss, d, pos, true) {
         let (s, k) = choose|s: int, k: int| 0 <= s < ss.len() && is_decl_child(ss, s, k, d) && region(ss, s, d, pos, true);
         if kd(ss, s) == LuaScopeKind::Normal || kd(ss, s) == LuaScopeKind::ForRange {
-            let kb = kids(ss, s).len() - 1;
-            wf_child(ss, s, kb);
-            lemma_inside_parent(ss, sidx(kids(ss, s)[kb]), pos);
-            assert(kids(ss, s)[kb] matches ScopeOrDeclId::Scope(sid) && rng(ss, sid.id as int, pos));
+            if in_body(ss, s, pos) { lemma_in_body_child(ss, s, pos); }
         }
         assert(region(ss, s, d, pos, false));
     }
     if !in_header(ss, pos) && visible(ss, d, pos, false) {
         let (s, k) = choose|s: int, k: int| 0 <= s < ss.len() && is_decl_child(ss, s, k, d) && region(ss, s, d, pos, false);
         if kd(ss, s) == LuaScopeKind::Normal || kd(ss, s) == LuaScopeKind::ForRange {
-            if kd(ss, s) == LuaScopeKind::ForRange {
-                let kc = choose|kc: int| 0 <= kc < kids(ss, s).len() && (#[trigger] kids(ss, s)[kc] matches ScopeOrDeclId::Scope(sid) && rng(ss, sid.id as int, pos));
-                wf_child(ss, s, kc);
-                lemma_inside_parent(ss, sidx(kids(ss, s)[kc]), pos);
-            }
+            if kd(ss, s) == LuaScopeKind::ForRange { lemma_for_region_inside(ss, s, pos); }
             assert(kids(ss, s)[k] is Decl);
-            assert(in_body(ss, s, pos));
         }
         assert(region(ss, s, d, pos, true));
     }
@@ -749,10 +818,10 @@ pub open spec fn same_stmt(ss: Seq<LuaScope>, x: ScopeOrDeclId, y: ScopeOrDeclId
 /// v occurs in t before index a
 pub open spec fn seen_before(t: Seq<ScopeOrDeclId>, a: int, v: ScopeOrDeclId) -> bool { exists|c: int| 0 <= c < a && t[c] == v }
 pub open spec fn ord_pair(ss: Seq<LuaScope>, t: Seq<ScopeOrDeclId>, a: int, b: int) -> bool {
-    (0 <= a < t.len() && 0 <= b < t.len() && xpos(t[b]) > xpos(t[a])) ==> (seen_before(t, a, t[b]) || same_stmt(ss, t[a], t[b]))
+    (0 <= a < t.len() && 0 <= b < t.len() && xpos(t[b]) > xpos(t[a])) ==> (seen_before(t, a, t[b]) || (!dup_fixed() && same_stmt(ss, t[a], t[b])))
 }
-/// an element with a larger position than an earlier one is a repetition of something emitted before that one, or the two are names of
-/// one statement (the real code walks those forward)
+/// an element with a larger position than an earlier one is a repetition of something emitted before that one, or (!dup_fixed(): today's
+/// code walks the names of one statement forward) the two are names of one statement
 pub open spec fn ordered(ss: Seq<LuaScope>, t: Seq<ScopeOrDeclId>) -> bool {
     forall|a: int, b: int| #[trigger] ord_pair(ss, t, a, b)
 }
@@ -814,32 +883,65 @@ pub proof fn lemma_child_has_bounds(ss: Seq<LuaScope>, i: int, k: int, x: ScopeO
     }
 }
 /// the declarations a statement scope exposes: names of one statement (LocalOrAssignStat), or at most one name (function statement)
+/// the names of one statement, last first, are in descending order of position
+pub proof fn lemma_decls_rev_ordered(ss: Seq<LuaScope>, s: int, k: int)
+    requires tree_wf(ss), 0 <= s < ss.len(), kd(ss, s) == LuaScopeKind::LocalOrAssignStat, 0 <= k <= kids(ss, s).len()
+    ensures ordered(ss, decls_rev(kids(ss, s), k))
+    decreases k
+{
+    let ks = kids(ss, s);
+    if k > 0 {
+        lemma_decls_rev_ordered(ss, s, k - 1);
+        if ks[k - 1] is Decl {
+            let x = seq![ks[k - 1]];
+            let y = decls_rev(ks, k - 1);
+            assert forall|a: int, b: int| #[trigger] ord_pair(ss, x, a, b) by {}
+            assert forall|a: int, b: int| #[trigger] cross_pair(x, y, a, b) by {
+                if 0 <= a < x.len() && 0 <= b < y.len() && xpos(y[b]) > xpos(x[a]) {
+                    assert(y.contains(y[b]));
+                    lemma_decls_rev_char(ks, k - 1, y[b]);
+                    let j = choose|j: int| 0 <= j < k - 1 && ks[j] == y[b];
+                    wf_local_at(ss, s, j, k - 1);
+                    assert(false);
+                }
+            }
+            lemma_ordered_concat(ss, x, y);
+        }
+    } else {
+        lemma_ordered_empty(ss);
+    }
+}
+/// the declarations a statement scope exposes: names of one statement (LocalOrAssignStat), or at most one name (function statement)
 pub proof fn lemma_child_ordered(ss: Seq<LuaScope>, c: ScopeOrDeclId)
     requires tree_wf(ss)
     ensures ordered(ss, m_child(ss, c))
 {
     let t = m_child(ss, c);
-    assert forall|a: int, b: int| #[trigger] ord_pair(ss, t, a, b) by {
-      if 0 <= a < t.len() && 0 <= b < t.len() && xpos(t[b]) > xpos(t[a]) {
-        assert(t.contains(t[a]) && t.contains(t[b]));
-        lemma_child_char(ss, c, t[a]);
-        lemma_child_char(ss, c, t[b]);
-        if c is Scope {
-            let s = sidx(c);
-            if func_kind(kd(ss, s)) {
-                wf_func_at(ss, s);
-                let ja = choose|j: int| 0 <= j < kids(ss, s).len() && kids(ss, s)[j] == t[a];
-                let jb = choose|j: int| 0 <= j < kids(ss, s).len() && kids(ss, s)[j] == t[b];
-                assert(kids(ss, s)[ja] is Decl && kids(ss, s)[jb] is Decl);
-                assert(false);
+    if c is Scope && sidx(c) < ss.len() && dup_fixed() && kd(ss, sidx(c)) == LuaScopeKind::LocalOrAssignStat {
+        lemma_decls_rev_ordered(ss, sidx(c), kids(ss, sidx(c)).len() as int);
+    } else {
+        assert forall|a: int, b: int| #[trigger] ord_pair(ss, t, a, b) by {
+          if 0 <= a < t.len() && 0 <= b < t.len() && xpos(t[b]) > xpos(t[a]) {
+            assert(t.contains(t[a]) && t.contains(t[b]));
+            lemma_child_char(ss, c, t[a]);
+            lemma_child_char(ss, c, t[b]);
+            if c is Scope {
+                let s = sidx(c);
+                if func_kind(kd(ss, s)) {
+                    wf_func_at(ss, s);
+                    let ja = choose|j: int| 0 <= j < kids(ss, s).len() && kids(ss, s)[j] == t[a];
+                    let jb = choose|j: int| 0 <= j < kids(ss, s).len() && kids(ss, s)[j] == t[b];
+                    assert(kids(ss, s)[ja] is Decl && kids(ss, s)[jb] is Decl);
+                    assert(false);
+                } else {
+                    assert(kids(ss, s).contains(t[a]) && kids(ss, s).contains(t[b]));
+                    assert(same_stmt(ss, t[a], t[b]));
+                }
             } else {
-                assert(kids(ss, s).contains(t[a]) && kids(ss, s).contains(t[b]));
-                assert(same_stmt(ss, t[a], t[b]));
+                assert(t.len() == 1);
             }
-        } else {
-            assert(t.len() == 1);
+          }
         }
-      }
     }
 }
 /// the reverse walk over children 0..=j of an ordered scope
@@ -947,16 +1049,17 @@ pub proof fn lemma_ord_body(ss: Seq<LuaScope>, u: int, b: int, p: int, pos: int,
 #[verifier::spinoff_prover]
 pub proof fn lemma_ord_level(ss: Seq<LuaScope>, u: int, b: int, p: int, pos: int, x: Seq<ScopeOrDeclId>)
     requires up_pre(ss, u, b, p, pos, x)
-    ensures ordered(ss, x + up_body(ss, par(ss, u), p) + m_search(ss, par(ss, u), p))
+    ensures ordered(ss, x + up_body(ss, par(ss, u), p) + lsearch(ss, par(ss, u), p))
 {
     let i = par(ss, u);
     let a_s = up_body(ss, i, p);
-    let bs = m_search(ss, i, p);
+    let bs = lsearch(ss, i, p);
     let x1 = x + a_s;
     lemma_beta(ss, i, b);
     lemma_inside_parent(ss, u, pos);
     lemma_ord_body(ss, u, b, p, pos, x);
     lemma_search_ordered(ss, i, p);
+    lemma_ordered_empty(ss);
     if kd(ss, i) == LuaScopeKind::Repeat {
         lemma_repeat_search_empty(ss, i, p);
         assert forall|a: int, b1: int| #[trigger] cross_pair(x1, bs, a, b1) by {}
@@ -991,17 +1094,18 @@ pub proof fn lemma_ord_level(ss: Seq<LuaScope>, u: int, b: int, p: int, pos: int
 #[verifier::spinoff_prover]
 pub proof fn lemma_lower_next(ss: Seq<LuaScope>, u: int, b: int, p: int, pos: int, x: Seq<ScopeOrDeclId>, ki: int)
     requires up_pre(ss, u, b, p, pos, x), par(ss, u) > 0, 0 <= par(ss, par(ss, u)) < par(ss, u), is_scope_child(ss, par(ss, par(ss, u)), ki, par(ss, u))
-    ensures lower_ok(ss, par(ss, u), ki, p, x + up_body(ss, par(ss, u), p) + m_search(ss, par(ss, u), p))
+    ensures lower_ok(ss, par(ss, u), ki, p, x + up_body(ss, par(ss, u), p) + lsearch(ss, par(ss, u), p))
 {
     let i = par(ss, u);
     let body = first_scope(ss, i);
     let a_s = up_body(ss, i, p);
-    let bs = m_search(ss, i, p);
+    let bs = lsearch(ss, i, p);
     let x1 = x + a_s;
     let x2 = x1 + bs;
     lemma_beta(ss, i, b);
     lemma_beta(ss, par(ss, i), ki);
     if kd(ss, i) == LuaScopeKind::Repeat { wf_repeat_at(ss, i); }
+    if kd(ss, par(ss, i)) == LuaScopeKind::Repeat { wf_repeat_at(ss, par(ss, i)); }
     assert forall|e: ScopeOrDeclId| #[trigger] x2.contains(e) implies e is Decl && beta(ss, par(ss, i), ki) <= xpos(e) by {
         lemma_concat_contains(x1, bs, e);
         lemma_concat_contains(x, a_s, e);
@@ -1021,6 +1125,7 @@ pub proof fn lemma_lower_next(ss: Seq<LuaScope>, u: int, b: int, p: int, pos: in
     if func_kind(kd(ss, i)) {
         wf_func_at(ss, i);
         assert(kids(ss, i)[b] is Scope);
+        assert(bs == m_search(ss, i, p));
         assert forall|k: int| 0 <= k < kids(ss, i).len() && #[trigger] kids(ss, i)[k] is Decl implies x2.contains(kids(ss, i)[k]) by {
             let y = kids(ss, i)[k];
             wf_order_at(ss, i, k, b);
@@ -1029,8 +1134,11 @@ pub proof fn lemma_lower_next(ss: Seq<LuaScope>, u: int, b: int, p: int, pos: in
             lemma_concat_contains(x1, bs, y);
         }
     }
-    assert forall|e: ScopeOrDeclId| #[trigger] m_search(ss, i, p).contains(e) implies x2.contains(e) by {
-        lemma_concat_contains(x1, bs, e);
+    if kd(ss, par(ss, i)) == LuaScopeKind::Repeat && first_scope(ss, par(ss, i)) == i {
+        assert(bs == m_search(ss, i, p));
+        assert forall|e: ScopeOrDeclId| #[trigger] m_search(ss, i, p).contains(e) implies x2.contains(e) by {
+            lemma_concat_contains(x1, bs, e);
+        }
     }
 }
 #[verifier::spinoff_prover]
@@ -1053,7 +1161,7 @@ pub proof fn lemma_up_ord(ss: Seq<LuaScope>, u: int, b: int, p: int, pos: int, x
         assert(lower_ok(ss, i, ki, st(ss, i), x));
         lemma_up_ord(ss, i, ki, st(ss, i), pos, x);
     } else {
-        let x2 = x + up_body(ss, i, p) + m_search(ss, i, p);
+        let x2 = x + up_body(ss, i, p) + lsearch(ss, i, p);
         let cs = m_up(ss, i, p);
         lemma_ord_level(ss, u, b, p, pos, x);
         assert(x + m_up(ss, u, p) =~= x2 + cs);
@@ -1200,7 +1308,7 @@ pub proof fn lemma_entry_ord(ss: Seq<LuaScope>, l: int, pos: int)
 /// an element that did not occur before index j has no larger position than t[j], unless the two are names of one statement
 pub proof fn lemma_first_is_latest(ss: Seq<LuaScope>, t: Seq<ScopeOrDeclId>, j: int, b: int)
     requires ordered(ss, t), 0 <= j < t.len(), 0 <= b < t.len(), forall|c: int| 0 <= c < j ==> t[c] != t[b]
-    ensures xpos(t[b]) <= xpos(t[j]) || same_stmt(ss, t[j], t[b])
+    ensures xpos(t[b]) <= xpos(t[j]) || (!dup_fixed() && same_stmt(ss, t[j], t[b]))
 {
     assert(ord_pair(ss, t, j, b));
 }
